@@ -247,6 +247,64 @@ func runC37(p *core.Prog, r *core.Report) {
 		}, Comps: []core.Comp{{Result: -1, Kind: core.IsTrue}}},
 	}
 	core.CheckSuccessFn(p, r3, v2f, core.SuccessRule{ResultIdx: -1, MinReturns: 1, Guards: v2})
+	// ---- R6 sibling agreement: the request itself is bound to the token in BOTH branches
+	r6 := r.Rule("C37.R6", "in both token branches the operation data is witnessed by a party the token names: V1 — VerifySessionDataSignature(signed data, invocation script) with the session key; V2 — the request's signer is asserted to be one of the token's subjects (AssertAuthority) and the operation data is authenticated against that signer. A token is copied around in requests and notary transactions; without this clause whoever holds a copy acts for the owner", 2)
+	v1bound := core.Guard{Name: "v1-data-signature", Match: func(s core.Site) bool {
+		a := s.Call.Common().Args
+		return strings.HasSuffix(s.Name, "session.Container).VerifySessionDataSignature") && len(a) == 3 && fieldOfParam(s.Fn, a[1], "signedData") && fieldOfParam(s.Fn, a[2], "invocScript")
+	}, Comps: []core.Comp{{Result: -1, Kind: core.IsTrue}}}
+	gfB := core.Flow(vsf, []core.Guard{v1[0], v1bound})
+	nV1 := 0
+	for _, b := range vsf.Blocks {
+		ret, ok := b.Instrs[len(b.Instrs)-1].(*ssa.Return)
+		if !ok || len(ret.Results) != 1 {
+			continue
+		}
+		if c, isC := ret.Results[0].(*ssa.Const); !isC || !c.IsNil() {
+			continue
+		}
+		f := gfB.At(ret)
+		if gfB.Passed(f, 0) { // a V1 success path
+			nV1++
+			r6.Check(gfB.Passed(f, 1), core.FuncName(vsf)+"#v1-success!request-bound-to-token", p.InstrPos(ret), "operation data signed with the session key", "a V1 session is accepted without the operation data being signed with the session key")
+		}
+	}
+	if nV1 == 0 {
+		r6.Bad(core.FuncName(vsf)+"#v1-success!request-bound-to-token", p.Pos(vsf.Pos()), "no V1 success path found")
+	}
+	v2bound := []core.Guard{
+		{Name: "v2-signer-is-a-subject", Match: func(s core.Site) bool { return strings.HasSuffix(s.Name, "session/v2.Token).AssertAuthority") }, Comps: []core.Comp{{Result: 0, Kind: core.IsTrue}}},
+		{Name: "v2-data-authenticated", Match: func(s core.Site) bool {
+			if s.Name != "internal/crypto.AuthenticateContainerRequest" {
+				return false
+			}
+			for _, a := range s.Call.Common().Args {
+				if fieldOfParam(s.Fn, a, "signedData") {
+					return true
+				}
+			}
+			return false
+		}, Comps: []core.Comp{{Result: -1, Kind: core.ErrNil}}},
+	}
+	gfV2 := core.Flow(v2f, v2bound)
+	nV2 := 0
+	for _, b := range v2f.Blocks {
+		ret, ok := b.Instrs[len(b.Instrs)-1].(*ssa.Return)
+		if !ok || len(ret.Results) != 1 {
+			continue
+		}
+		if c, isC := ret.Results[0].(*ssa.Const); !isC || !c.IsNil() {
+			continue
+		}
+		nV2++
+		f := gfV2.At(ret)
+		r6.Check(gfV2.Passed(f, 0) && gfV2.Passed(f, 1), core.FuncName(v2f)+"#v2-success!request-bound-to-token", p.InstrPos(ret), "signer is a subject of the token and the operation data is authenticated against it",
+			"a V2 session is accepted without looking at who signed the operation data (its sibling, the V1 branch, demands the session key's signature): anybody holding a copy of a valid owner-issued token gets any request within the token's verbs approved")
+	}
+	if nV2 == 0 {
+		r6.Bad(core.FuncName(v2f)+"#v2-success!request-bound-to-token", p.Pos(v2f.Pos()), "no V2 success path found")
+	}
+	r.Explain += " (R6) sibling agreement on the one obligation R3 does not list: the request is bound to the token. The V1 branch verifies the operation data with the session key on every success path; the V2 branch must assert that the request's signer is a subject of the token and authenticate the operation data against that signer. On the current tree the V2 branch does neither (known finding)."
 	// ---- R4
 	r4 := r.Rule("C37.R4", "verb and verbV2 of every signatureVerificationData literal name the same operation, the one of the enclosing check", 5)
 	v1names := constNames(p, "github.com/nspcc-dev/neofs-sdk-go/session", "ContainerVerb", "VerbContainer")
